@@ -6119,14 +6119,14 @@ impl QueryRouter {
     fn execute_select(&self, command: &str) -> Result<QueryResult> {
         // Support both: SELECT <table> [WHERE <condition>]
         // and: SELECT * FROM <table> [WHERE <condition>] [LIMIT n]
-        let upper = command.to_uppercase();
+        let upper = command.to_ascii_uppercase();
 
         // Check for FROM clause (standard SQL syntax)
         if let Some(from_pos) = upper.find(" FROM ") {
             let rest_after_from = &command[from_pos + 6..];
 
             // Find table name (until WHERE, LIMIT, or end)
-            let upper_rest = rest_after_from.to_uppercase();
+            let upper_rest = rest_after_from.to_ascii_uppercase();
             let end_pos = upper_rest
                 .find(" WHERE ")
                 .or_else(|| upper_rest.find(" LIMIT "))
@@ -6136,7 +6136,7 @@ impl QueryRouter {
             // Parse WHERE condition
             let condition = if let Some(where_pos) = upper_rest.find(" WHERE ") {
                 let after_where = &rest_after_from[where_pos + 7..];
-                let limit_pos = after_where.to_uppercase().find(" LIMIT ");
+                let limit_pos = after_where.to_ascii_uppercase().find(" LIMIT ");
                 let cond_str = limit_pos.map_or(after_where, |pos| &after_where[..pos]);
                 self.parse_condition(cond_str.trim())?
             } else {
@@ -6165,7 +6165,7 @@ impl QueryRouter {
         }
 
         let rest = parts[1].trim();
-        let (table, condition) = if let Some(pos) = rest.to_uppercase().find(" WHERE ") {
+        let (table, condition) = if let Some(pos) = rest.to_ascii_uppercase().find(" WHERE ") {
             let table = rest[..pos].trim();
             let cond_str = rest[pos + 7..].trim();
             (table, self.parse_condition(cond_str)?)
@@ -6196,7 +6196,7 @@ impl QueryRouter {
 
     fn execute_update(&self, command: &str) -> Result<QueryResult> {
         // UPDATE <table> SET <col>=<val>, ... [WHERE <condition>]
-        let upper = command.to_uppercase();
+        let upper = command.to_ascii_uppercase();
         let set_pos = upper
             .find(" SET ")
             .ok_or_else(|| RouterError::ParseError("Missing SET clause".to_string()))?;
@@ -6204,7 +6204,7 @@ impl QueryRouter {
         let table_part = &command[7..set_pos].trim();
         let rest = &command[set_pos + 5..];
 
-        let (values_str, condition) = if let Some(pos) = rest.to_uppercase().find(" WHERE ") {
+        let (values_str, condition) = if let Some(pos) = rest.to_ascii_uppercase().find(" WHERE ") {
             (&rest[..pos], self.parse_condition(&rest[pos + 7..])?)
         } else {
             (rest, Condition::True)
@@ -6223,7 +6223,7 @@ impl QueryRouter {
         }
 
         let rest = parts[1].trim();
-        let (table, condition) = if let Some(pos) = rest.to_uppercase().find(" WHERE ") {
+        let (table, condition) = if let Some(pos) = rest.to_ascii_uppercase().find(" WHERE ") {
             (&rest[..pos], self.parse_condition(&rest[pos + 7..])?)
         } else {
             (rest, Condition::True)
@@ -6256,7 +6256,7 @@ impl QueryRouter {
     fn execute_create(&self, command: &str) -> Result<QueryResult> {
         // CREATE TABLE <table> (<col>:<type>, ...)
         // CREATE INDEX <table> <column>
-        let upper = command.to_uppercase();
+        let upper = command.to_ascii_uppercase();
 
         if upper.starts_with("CREATE TABLE ") {
             self.execute_create_table(command)
@@ -6334,7 +6334,7 @@ impl QueryRouter {
     fn execute_drop(&self, command: &str) -> Result<QueryResult> {
         // DROP TABLE <table>
         // DROP INDEX <table> <column>
-        let upper = command.to_uppercase();
+        let upper = command.to_ascii_uppercase();
 
         if upper.starts_with("DROP TABLE ") {
             let table = command[11..].trim();
@@ -6670,12 +6670,12 @@ impl QueryRouter {
         let cond_str = cond_str.trim();
 
         // Handle AND/OR
-        if let Some(pos) = cond_str.to_uppercase().find(" AND ") {
+        if let Some(pos) = cond_str.to_ascii_uppercase().find(" AND ") {
             let left = self.parse_condition(&cond_str[..pos])?;
             let right = self.parse_condition(&cond_str[pos + 5..])?;
             return Ok(left.and(right));
         }
-        if let Some(pos) = cond_str.to_uppercase().find(" OR ") {
+        if let Some(pos) = cond_str.to_ascii_uppercase().find(" OR ") {
             let left = self.parse_condition(&cond_str[..pos])?;
             let right = self.parse_condition(&cond_str[pos + 4..])?;
             return Ok(left.or(right));
@@ -6725,8 +6725,9 @@ impl QueryRouter {
         }
 
         // String (quoted)
-        if (val_str.starts_with('"') && val_str.ends_with('"'))
-            || (val_str.starts_with('\'') && val_str.ends_with('\''))
+        if val_str.len() >= 2
+            && ((val_str.starts_with('"') && val_str.ends_with('"'))
+                || (val_str.starts_with('\'') && val_str.ends_with('\'')))
         {
             return Ok(Value::String(val_str[1..val_str.len() - 1].to_string()));
         }
@@ -6802,8 +6803,9 @@ impl QueryRouter {
         if val_str.to_uppercase() == "FALSE" {
             return PropertyValue::Bool(false);
         }
-        if (val_str.starts_with('"') && val_str.ends_with('"'))
-            || (val_str.starts_with('\'') && val_str.ends_with('\''))
+        if val_str.len() >= 2
+            && ((val_str.starts_with('"') && val_str.ends_with('"'))
+                || (val_str.starts_with('\'') && val_str.ends_with('\'')))
         {
             return PropertyValue::String(val_str[1..val_str.len() - 1].to_string());
         }
@@ -6867,7 +6869,7 @@ impl QueryRouter {
         let mut directed = true;
 
         for part in parts.iter().skip(3) {
-            let upper = part.to_uppercase();
+            let upper = part.to_ascii_uppercase();
             if upper == "DIRECTED" {
                 directed = true;
             } else if upper == "UNDIRECTED" {
@@ -6901,7 +6903,7 @@ impl QueryRouter {
     }
 
     fn parse_similar_args(&self, rest: &str) -> Result<(Vec<f32>, usize)> {
-        let upper = rest.to_uppercase();
+        let upper = rest.to_ascii_uppercase();
         let mut top_k = 10;
 
         // Check for TOP clause
